@@ -82,24 +82,24 @@ Definition tabs_7_mod_2 : tabs :=
   {| t_pow := []; t_mod := [(0x401C000000000000, 0x4000000000000000, 0x3FF0000000000000)%N]; t_f2i := [] |}.
 
 Theorem C02_old_table_refuted :
-  exists (a : Z) (b : float) (v : lit float),
-    fold_bin_old (prim_fops tabs_7_mod_2) Mod (LInt a) (LFloat b) = Some v /\
+  exists (a : Z) (b : SpecFloat.spec_float) (v : lit SpecFloat.spec_float),
+    let fo := spec_fops tabs_7_mod_2 in
+    fold_bin_old fo Mod (LInt a) (LFloat b) = Some v /\
     forall s : unit,
-      fst (snd (arith (prim_fops tabs_7_mod_2) unit (fun _ l _ => l) (fun _ => None) (fun _ => None) Mod
+      fst (snd (arith fo unit (fun _ l _ => l) (fun _ => None) (fun _ => None) Mod
                   (lit_den unit (LInt a)) (lit_den unit (LFloat b))) s)
       <> fst (snd (lit_den unit v) s).
 Proof.
-  exists 7%Z, (of_bits 0x4000000000000000%N), (LFloat (of_int64 0)). split.
+  exists 7%Z, (spec_of_bits 0x4000000000000000%N), (LFloat (SpecFloat.S754_zero false)). split.
   - vm_compute. reflexivity.
-  - intros s. vm_compute. intros E. injection E as E.
-    apply (f_equal to_bits) in E. vm_compute in E. discriminate E.
+  - intros s. vm_compute. intros E. discriminate E.
 Qed.
 
 (* a condition that is a constant arithmetic expression: accepted by the
    checker's shape rule unfolded, refused folded, and there is no division *)
 Theorem C02_const_cond_refuted :
-  exists p : tree float,
-    let fo := prim_fops tabs_7_mod_2 in
+  exists p : tree SpecFloat.spec_float,
+    let fo := spec_fops tabs_7_mod_2 in
     let sh := shape_ok fo unit (fun _ => (TyOther 0, fun s => (RErr, s))) (fun _ _ => (TyOther 0, fun s => (RErr, s)))
                 (fun _ d => d) (fun _ l _ => l) (fun _ => None) (fun _ => None) in
     sh p = true /\ fold_prog (fold_bin fo) p <> None /\
@@ -110,15 +110,15 @@ Proof.
   vm_compute. repeat split; discriminate.
 Qed.
 
-(* non-vacuity: the table folds 7 % 2.0 to 1.0 (bit pattern 0x3FF0...), and a
+(* non-vacuity: the repaired table folds 7 % 2.0 to 1.0, the VM's value, and a
    program with a nested constant is rewritten and accepted *)
 Example C02_fold_7_mod_2 :
-  fold_bin (prim_fops tabs_7_mod_2) Mod (LInt 7%Z) (LFloat (of_bits 0x4000000000000000%N))
-  = Some (LFloat (of_bits 0x3FF0000000000000%N)).
+  fold_bin (spec_fops tabs_7_mod_2) Mod (LInt 7%Z) (LFloat (spec_of_bits 0x4000000000000000%N))
+  = Some (LFloat (spec_of_bits 0x3FF0000000000000%N)).
 Proof. vm_compute. reflexivity. Qed.
 
 Example C02_fold_prog_nontrivial :
-  fold_prog (fold_bin (prim_fops tabs_7_mod_2))
+  fold_prog (fold_bin (spec_fops tabs_7_mod_2))
     (TNode 2 (TCons (TNode 1042 (TCons (TLeaf 1)
        (TCons (TBin Mul (TBin Add (TLit (LInt 9223372036854775807%Z)) (TLit (LInt 1%Z))) (TLeaf 2)) TNil))) TNil))
   = Some (TNode 2 (TCons (TNode 1042 (TCons (TLeaf 1)
